@@ -117,6 +117,17 @@ mut('c05-tvd-drop-args', 'C05', 'advection.py', "        return convectionTvdRHS
 mut('c01-explicit-noapply', 'C01', 'pdesolver.py', "    phi._value = TrackedArray(x)\n    phi.apply_BCs()\n    return phi", "    phi._value = TrackedArray(x)\n    return phi", 'solveExplicitPDE')
 
 
+# ---- twins for the rules added with the fourth / fifth round
+mut('twin-c09-update-copy', 'C09', 'cell.py', "        np.copyto(self._value, new_cell._value)\n        self._value.modified = True\n", "        self._value = TrackedArray(np.copy(new_cell._value))\n        self._value.modified = True\n", None)
+mut('twin-c03-plotprofile-copy', 'C03', 'cell.py', "            phi0 = np.copy(self._value)", "            phi0 = self._value.copy()", None, occ='all')
+mut('twin-c12-explicit-temp', 'C12', 'pdesolver.py', "    x = phi_old._value + dt*RHS.reshape(phi_old._value.shape)\n", "    x = dt*RHS.reshape(phi_old._value.shape)\n    x += phi_old._value\n", None)
+mut('twin-c04-rhs-size', 'C04', 'source.py', "        RHS = np.zeros((Nx+2)*(Ny+2)*(Nz+2))", "        RHS = np.zeros(G.size)", None)
+mut('c04-rhs-int', 'C04', 'source.py', "        RHS = np.zeros((Nx+2)*(Ny+2)*(Nz+2))", "        RHS = np.zeros(G.size, dtype=G.dtype)", 'constantSourceTerm')
+mut('c16-disp-drop-args', 'C16', 'advection.py', "        return convectionUpwindTermCylindrical2D(u, *args)", "        return convectionUpwindTermCylindrical2D(u)", 'convectionUpwindTerm/argument-forwarding')
+mut('c15-grad-applybcs', 'C15', 'calculus.py', "    # calculates the gradient of a variable\n    # the output is a face variable\n    if issubclass(type(phi.domain), Grid1D):\n        dx = 0.5*(phi.domain.cellsize._x[0:-1]+phi.domain.cellsize._x[1:])\n        return FaceVariable(phi.domain,\n                     (phi._value[1:]-phi._value[0:-1])/dx,", "    # calculates the gradient of a variable\n    # the output is a face variable\n    if phi.BCs.modified or phi.value.modified:\n        phi.apply_BCs()\n    if issubclass(type(phi.domain), Grid1D):\n        dx = 0.5*(phi.domain.cellsize._x[0:-1]+phi.domain.cellsize._x[1:])\n        return FaceVariable(phi.domain,\n                     (phi._value[1:]-phi._value[0:-1])/dx,", 'gradientTerm/dirty-argument')
+mut('c09-periodic-off-noflag', 'C09', 'boundary.py', "    def periodic(self, val):\n        self.modified = True\n        self._periodic = bool(val)\n", "    def periodic(self, val):\n        self._periodic = bool(val)\n        if self._periodic:\n            self.modified = True\n", 'periodic.setter[switch off]')
+
+
 def seeded_entries():
     """every independently seeded change whose target check reports it is replayed as a mutant of the target check"""
     sd = os.path.join(VERIF, 'seeded')
